@@ -101,22 +101,33 @@ def runROp (b : Reader) : ROp → Reader × String
   | .ur => let (b', e) := b.unreadRune; (b', toString e)
 
 /-- driver-level op: a model op, or `rst:<script>` = `Reset(newSource)` -/
-inductive DROp | op (o : ROp) | rst (src : Script)
+inductive DROp | op (o : ROp) | rst (src : Script) | nr (size : Nat) | pkn
 
 def parseDROp (s : String) : Option DROp :=
   match s.splitOn ":" with
   | ["rst", sc] => (parseScript sc).map DROp.rst
+  | ["nr", n] => n.toNat?.map DROp.nr          -- NewReaderSize(b, n): same Reader or a new one?
+  | ["pkn"] => some .pkn                        -- Peek(-1)
   | _ => (parseROp s).map DROp.op
 
-def runROps (total0 : Nat) : Reader → List DROp → List String → List String
+/-- `deleg` = the scripted source is an io.WriterTo, so `wt` takes the delegation branch -/
+def runROps (deleg : Bool) (total0 : Nat) : Reader → List DROp → List String → List String
   | _, [], acc => acc.reverse
   | b, .op op :: ops, acc =>
-    let (b', s) := runROp b op
-    runROps total0 b' ops ((s ++ rstate total0 b') :: acc)
+    let (b', s) :=
+      match deleg, op with
+      | true, .wt ws =>
+        let (b', n, e, o) := b.writeToWT ws
+        (b', toString n ++ "." ++ toString e ++ "." ++ hexField o)
+      | _, _ => runROp b op
+    runROps deleg total0 b' ops ((s ++ rstate total0 b') :: acc)
   | b, .rst src :: ops, acc =>
     let b' := b.reset src
     let t0 := (srcBytes src).length
-    runROps t0 b' ops (("rst" ++ rstate t0 b') :: acc)
+    runROps deleg t0 b' ops (("rst" ++ rstate t0 b') :: acc)
+  | b, .nr size :: ops, acc =>
+    runROps deleg total0 b ops (((if b.newReaderSizeSame size then "same" else "new") ++ rstate total0 b) :: acc)
+  | b, .pkn :: ops, acc => runROps deleg total0 b ops (("-.5" ++ rstate total0 b) :: acc)
 
 def wstate (b : Writer) : String :=
   "|t" ++ toString b.total ++ "|b" ++ toString b.buf.length ++ "|o" ++ toString b.out.length ++
@@ -130,21 +141,28 @@ def runWOp (b : Writer) : WOp → Writer × String
   | .rf src => let (b', n, e) := b.readFrom src; (b', toString n ++ "." ++ toString e)
   | .wr r => let (b', n, e) := b.writeRune r; (b', toString n ++ "." ++ toString e)
 
-inductive DWOp | op (o : WOp) | rst (ws : WScript)
+inductive DWOp | op (o : WOp) | rst (ws : WScript) | nw (size : Nat)
 
 def parseDWOp (s : String) : Option DWOp :=
   match s.splitOn ":" with
   | ["rst", sc] => (parseWScript sc).map DWOp.rst
+  | ["nw", n] => n.toNat?.map DWOp.nw
   | _ => (parseWOp s).map DWOp.op
 
-def runWOps : Writer → List DWOp → List String → Writer × List String
+/-- `deleg` = the scripted sink is an io.ReaderFrom -/
+def runWOps (deleg : Bool) : Writer → List DWOp → List String → Writer × List String
   | b, [], acc => (b, acc.reverse)
   | b, .op op :: ops, acc =>
-    let (b', s) := runWOp b op
-    runWOps b' ops ((s ++ wstate b') :: acc)
+    let (b', s) :=
+      match deleg, op with
+      | true, .rf src => let (b', n, e) := b.readFromRF src; (b', toString n ++ "." ++ toString e)
+      | _, _ => runWOp b op
+    runWOps deleg b' ops ((s ++ wstate b') :: acc)
   | b, .rst ws :: ops, acc =>
     let b' := b.reset ws
-    runWOps b' ops (("rst" ++ wstate b') :: acc)
+    runWOps deleg b' ops (("rst" ++ wstate b') :: acc)
+  | b, .nw size :: ops, acc =>
+    runWOps deleg b ops (((if b.newWriterSizeSame size then "same" else "new") ++ wstate b) :: acc)
 
 /-! ### spec oracles on the implementation's result string -/
 
@@ -213,6 +231,16 @@ def oracleR : Bytes → Nat → List DROp → List String → Option String
   | _, _, .rst src :: ops, r :: rs =>
     -- after Reset: nothing consumed, counter 0, new stream
     if r.startsWith "rst|t0|p0|" then oracleR (srcBytes src) 0 ops rs else some "count-rst"
+  | S, p0, .nr size :: ops, r :: rs =>
+    -- documented: "If the argument io.Reader is already a Reader with large enough size, it returns the
+    -- underlying Reader"; nothing is consumed.  (buffer size = r/w upper bound is not visible here, so the
+    -- same/new answer itself is judged by the correspondence; the oracle checks position and counter)
+    let want := "|t" ++ toString p0 ++ "|p" ++ toString p0 ++ "|"
+    if ((r.splitOn want).length > 1) && (r.startsWith "same" || r.startsWith "new") && size ≥ 0
+    then oracleR S p0 ops rs else some "newreader-moved"
+  | S, p0, .pkn :: ops, r :: rs =>
+    let want := "-.5|t" ++ toString p0 ++ "|p" ++ toString p0 ++ "|"
+    if r.startsWith want then oracleR S p0 ops rs else some "peek-negative"
   | _, _, _, _ => some "token-count"
 
 def wopName : WOp → String
@@ -254,6 +282,9 @@ def oracleW : Bytes → List DWOp → List String → Option String × Bytes
     | (none, A') => oracleW A' ops rs
   | A, .rst _ :: ops, r :: rs =>
     if r.startsWith "rst|t0|b0|o0|" then oracleW [] ops rs else (some "count-rst", A)
+  | A, .nw _ :: ops, r :: rs =>
+    if (r.startsWith ("same|t" ++ toString A.length ++ "|")) || (r.startsWith ("new|t" ++ toString A.length ++ "|"))
+    then oracleW A ops rs else (some "newwriter-moved", A)
   | A, _, _ => (some "token-count", A)
 
 def isPrefixB : Bytes → Bytes → Bool
@@ -261,30 +292,49 @@ def isPrefixB : Bytes → Bytes → Bool
   | _ :: _, [] => false
   | x :: xs, y :: ys => x == y && isPrefixB xs ys
 
+/-- length of an HTTP header block: position just after the first empty line (LF or CRLF line ends) -/
+def headerEnd : Bytes → Nat → Nat → Option Nat
+  | _, _, 0 => none
+  | 10 :: 10 :: _, i, _ => some (i + 2)
+  | 10 :: 13 :: 10 :: _, i, _ => some (i + 3)
+  | _ :: rest, i, f + 1 => headerEnd rest (i + 1) f
+  | [], _, _ => none
+
 def run (op impl : String) : Ans :=
   match op.splitOn ";" with
-  | ["R", capS, srcS, opsS] =>
+  | [kind, capS, srcS, opsS] =>
+    if kind == "R" || kind == "RW" then
+    let deleg := kind == "RW"
     match (kv "cap" capS).bind String.toNat?, (kv "src" srcS).bind parseScript,
           (kv "ops" opsS).bind (fun s => (s.splitOn ",").mapM parseDROp) with
     | some cap, some src, some ops =>
       let S := srcBytes src
       let b := Reader.new cap src
-      let model := ",".intercalate (runROps S.length b ops [])
+      let model := ",".intercalate (runROps deleg S.length b ops [])
+      -- known finding: on the delegation branch WriteTo leaves lastByte / r / w untouched, so an
+      -- UnreadByte / UnreadRune after it re-inserts bytes that are not the last ones consumed
+      let unreadAfterWt : Bool :=
+        deleg && ((ops.dropWhile fun o => match o with | .op (.wt _) => false | _ => true).any fun o =>
+          match o with | .op .ub => true | .op .ur => true | _ => false)
       let verdict :=
         if impl.startsWith "PANIC" || impl.startsWith "HANG" then "FAIL:crash"
+        else if (impl.splitOn "ALIAS").length > 1 then "FAIL:aliasing"
         else match oracleR S 0 ops (impl.splitOn ",") with
           | none => "ok"
-          | some c => "FAIL:" ++ c
-      let tags := (ops.map fun o => match o with | .op x => ropName x | .rst _ => "rst").eraseDups ++
-        (if ops.length ≥ 3 then ["nt"] else []) ++ ["reader"]
+          | some c => if unreadAfterWt && c.startsWith "stream" then "FAIL:deleg-stale-unread" else "FAIL:" ++ c
+      let tags := (ops.map fun o => match o with
+          | .op x => ropName x | .rst _ => "rst" | .nr _ => "nr" | .pkn => "pkn").eraseDups ++
+        (if ops.length ≥ 3 then ["nt"] else []) ++ [if deleg then "reader-writerto" else "reader"]
       { model := model, verdict := verdict, tags := tags }
     | _, _, _ => { model := "bad-op", verdict := "skip" }
-  | ["W", capS, wsS, opsS] =>
+    else if kind == "W" || kind == "WF" then
+    let wsS := srcS
+    let deleg := kind == "WF"
     match (kv "cap" capS).bind String.toNat?, (kv "ws" wsS).bind parseWScript,
           (kv "ops" opsS).bind (fun s => (s.splitOn ",").mapM parseDWOp) with
     | some cap, some ws, some ops =>
       let b := Writer.new cap ws
-      let (b', rs) := runWOps b ops []
+      let (b', rs) := runWOps deleg b ops []
       let model := ",".intercalate rs ++ ";out=" ++ hexField b'.out
       let verdict :=
         if impl.startsWith "PANIC" || impl.startsWith "HANG" then "FAIL:crash"
@@ -297,10 +347,34 @@ def run (op impl : String) : Ans :=
               | some o => if isPrefixB o A then "ok" else "FAIL:stream-out"
               | none => "FAIL:bad-token"
           | _ => "FAIL:bad-token"
-      let tags := (ops.map fun o => match o with | .op x => wopName x | .rst _ => "rst").eraseDups ++
-        (if ops.length ≥ 3 then ["nt"] else []) ++ ["writer"]
+      let tags := (ops.map fun o => match o with
+          | .op x => wopName x | .rst _ => "rst" | .nw _ => "nw").eraseDups ++
+        (if ops.length ≥ 3 then ["nt"] else []) ++ [if deleg then "writer-readerfrom" else "writer"]
       { model := model, verdict := verdict, tags := tags }
     | _, _, _ => { model := "bad-op", verdict := "skip" }
+    else { model := "bad-op", verdict := "skip" }
+  | ["H", capS, srcS] =>
+    -- real path: bfe_http.ReadRequest over the chunked source; HeaderSize is a TotalRead delta
+    match (kv "cap" capS).bind String.toNat?, (kv "src" srcS).bind parseScript with
+    | some _, some src =>
+      let S := srcBytes src
+      match headerEnd S 0 S.length with
+      | none => { model := "err", verdict := "skip", tags := ["http-bad"] }
+      | some L =>
+        let model := "ok." ++ toString L ++ "|t" ++ toString L ++ "|p" ++ toString L
+        let verdict :=
+          match impl.splitOn "|" with
+          | [a, t, p] =>
+            if a.startsWith "ok." then
+              let h := (a.drop 3).toString
+              if ("p" ++ h) != p then "FAIL:header-size-vs-consumed"
+              else if ("t" ++ h) != t then "FAIL:count-header"
+              else if h != toString L then "FAIL:header-size"
+              else "ok"
+            else "FAIL:http-rejected"
+          | _ => if impl == "err" then "FAIL:http-rejected" else "FAIL:bad-token"
+        { model := model, verdict := verdict, tags := ["http", "nt"] }
+    | _, _ => { model := "bad-op", verdict := "skip" }
   | _ => { model := "bad-op", verdict := "skip" }
 
 end BfeVerif.C22
